@@ -327,6 +327,21 @@ def run_path(h, cfg):
         return out
     if not h.require('zero-weight-never-selected', LT(0, weights[chosen]), {'chosen': str(chosen), 'w': show(weights[chosen]), 'draws': len(log)}):
         return out
+    # one weighted library draw (random.choices(items, weights=...)) is an acceptable protocol too, PROVIDED the weights handed over
+    # are the current weights of the candidates they are paired with, position by position
+    wl = [e for e in log if e[0] == 'wchoices']
+    if wl and len(wl) == len([e for e in log if e[0] != 'cmp']):
+        e = wl[-1]
+        pop, ws, idx = list(e[1]), list(e[2]), e[3]
+        if sorted(map(str, pop)) != sorted(map(str, items)):
+            h.fail('proposal-uniform-over-items', {'proposed_from': [str(x) for x in pop], 'items': [str(x) for x in items]})
+            return out
+        h.require('weighted-draw-uses-current-weights', AND(True, *[EQ(ws[j], weights[pop[j]]) for j in range(len(pop))]),
+                  {'candidates': [str(x) for x in pop], 'weights_passed': show(ws), 'current_weights': show([weights[x] for x in pop])})
+        if pop[idx] != chosen:
+            h.fail('returns-accepted-candidate', {'chosen': str(chosen), 'drawn': str(pop[idx])})
+        out['chosen'] = str(chosen)
+        return out
     # the draw protocol: (choice over items, uniform u, cmp) repeated; last iteration accepted
     i = 0
     iters = []
